@@ -618,11 +618,8 @@ func c09Run(cs *c09Case, o *c09Objects) (*c09Published, error) {
 	if items[0].Quantity == nil || items[1].Quantity == nil {
 		return nil, fmt.Errorf("item without quantity and without reset: %+v", items)
 	}
-	// batch-cpu is published as a plain count of milli-cores, batch-memory in bytes
-	out.node[0] = new(big.Rat).SetInt64(items[0].Quantity.Value())
-	if items[0].Quantity.MilliValue() != items[0].Quantity.Value()*1000 {
-		out.node[0] = c09MilliRat(*items[0].Quantity)
-	}
+	// batch-cpu is published as a plain count of milli-cores (Quantity value N = N milli-cores), batch-memory in bytes
+	out.node[0] = c09MilliRat(*items[0].Quantity)
 	out.node[1] = c09MilliRat(*items[1].Quantity)
 	if items[0].ZoneQuantity != nil || items[1].ZoneQuantity != nil {
 		for i := range cs.Zones {
@@ -632,10 +629,7 @@ func c09Run(cs *c09Case, o *c09Objects) (*c09Published, error) {
 			if !ok0 || !ok1 {
 				return nil, fmt.Errorf("zone %s missing in %+v", name, items)
 			}
-			out.zones = append(out.zones, [2]*big.Rat{c09MilliRat(zc).Mul(c09MilliRat(zc), big.NewRat(1000, 1)), c09MilliRat(zm)})
-			if zc.MilliValue() != zc.Value()*1000 { // not a plain count
-				out.zones[len(out.zones)-1][0] = c09MilliRat(zc)
-			}
+			out.zones = append(out.zones, [2]*big.Rat{c09MilliRat(zc), c09MilliRat(zm)})
 		}
 		if len(items[0].ZoneQuantity) != len(cs.Zones) || len(items[1].ZoneQuantity) != len(cs.Zones) {
 			return nil, fmt.Errorf("zone amounts for unknown zones: %+v", items)
@@ -973,10 +967,6 @@ func c09Raise(t *rapid.T, base, mut *c09Case) c09Mutation {
 	if len(base.HostApps) > 0 {
 		cands = append(cands, cand{"hostapp-usage", nil})
 	}
-	names := make([]string, len(cands))
-	for i := range cands {
-		names[i] = cands[i].kind
-	}
 	ci := rapid.IntRange(0, len(cands)-1).Draw(t, "raiseWhat")
 	cd := cands[ci]
 	r := rapid.IntRange(0, 1).Draw(t, "raiseRes")
@@ -1078,15 +1068,6 @@ func TestVerifC09BatchMonotone(t *testing.T) {
 		// the mutation is drawn on a clone; drop-metric also normalises the base case
 		mut := base.clone()
 		m := c09Raise(t, base, mut)
-		if m.kind == "drop-metric" {
-			// keep everything but the dropped metric identical
-			keep := mut.clone()
-			mut = base.clone()
-			for i := range mut.Pods {
-				mut.Pods[i].HasMetric = keep.Pods[i].HasMetric
-				mut.Pods[i].Use = keep.Pods[i].Use
-			}
-		}
 		ut := &metav1.Time{Time: c09Now.Add(-30 * time.Second)}
 		ob, om := base.build(ut), mut.build(ut)
 		restore := c09Env(ob.nrt)
@@ -1112,15 +1093,15 @@ func TestVerifC09BatchMonotone(t *testing.T) {
 			sig = "charge-at-request:metric-deleted"
 		}
 		decreased := false
-		cmp := func(where string, r int, before, after *big.Rat) bool {
+		cmp := func(where string, zi, r int, before, after *big.Rat) bool {
 			if after.Cmp(new(big.Rat).Add(before, c09Tol)) > 0 {
 				pol := ""
 				if m.kind == "drop-metric" {
 					pol = ":" + base.effPolicy(r)
 				}
 				return c.Violation(t, sig+":"+where+"-"+c09ResName[r]+"-raised"+pol,
-					"%s: %s %s went UP from %s to %s (policy %s)\nbefore items=%s\nafter  items=%s\nbase case=%s\nraised case=%s",
-					m.desc, where, c09ResName[r], c09F(before), c09F(after), base.effPolicy(r), pb.raw, pm.raw, base, mut)
+					"%s: %s(%d) %s went UP from %s to %s (policy %s)\nbefore items=%s\nafter  items=%s\nbase case=%s\nraised case=%s",
+					m.desc, where, zi, c09ResName[r], c09F(before), c09F(after), base.effPolicy(r), pb.raw, pm.raw, base, mut)
 			}
 			if after.Cmp(before) < 0 {
 				decreased = true
@@ -1128,7 +1109,7 @@ func TestVerifC09BatchMonotone(t *testing.T) {
 			return false
 		}
 		for r := 0; r < 2; r++ {
-			if cmp("node", r, pb.node[r], pm.node[r]) {
+			if cmp("node", -1, r, pb.node[r], pm.node[r]) {
 				return
 			}
 		}
@@ -1138,7 +1119,7 @@ func TestVerifC09BatchMonotone(t *testing.T) {
 		}
 		for zi := range pb.zones {
 			for r := 0; r < 2; r++ {
-				if cmp(fmt.Sprintf("zone%d", zi)[:4], r, pb.zones[zi][r], pm.zones[zi][r]) {
+				if cmp("zone", zi, r, pb.zones[zi][r], pm.zones[zi][r]) {
 					return
 				}
 			}
@@ -1194,6 +1175,9 @@ func TestVerifC09BatchStale(t *testing.T) {
 		for _, rl := range []corev1.ResourceList{o.node.Status.Allocatable, o.node.Status.Capacity} {
 			rl[extension.BatchCPU] = *resource.NewQuantity(old[0], resource.DecimalSI)
 			rl[extension.BatchMemory] = *resource.NewQuantity(old[1], resource.BinarySI)
+		}
+		if o.node.Annotations == nil {
+			o.node.Annotations = map[string]string{}
 		}
 		restore := c09Env(o.nrt)
 		defer restore()
